@@ -12,7 +12,7 @@ ALLOWED = ('RINGSyntaxError', 'RINGReaderError', 'NotImplementedError')
 
 def gen_texts(ctx):
     rng = ctx.rng
-    texts = list(ringgen.FIXED) + list(ringgen.RULES)
+    texts = list(ringgen.FIXED) + list(ringgen.RULES) + list(ringgen.BIMOLECULAR)
     hist = {'fixed': len(texts)}
     valid = [ringgen.fragment(rng, unsupported=rng.random() < 0.2, collide=rng.random() < 0.12) for _ in range(ctx.n(500, 15000))]
     hist['generated'] = len(valid)
@@ -58,8 +58,9 @@ def run(ctx):
         ctx.count(t, nontrivial=len(t) > 8)
         if k == 'Timeout':
             ctx.violate('hang:' + t[-30:], 'reading did not finish within 5 s', {'op': 'read', 'text': t}, 'bounded time', r)
-        elif k == 'AssertionError' and t.lstrip().startswith(('rule', 'positive', 'negative', 'neutral')) and 'rule' in t[:40]:
-            ctx.violate('rule-unreadable', 'a textual reaction rule cannot be read (AssertionError)', {'op': 'read', 'text': t}, 'query or RING error', r)
+        elif k in ('AssertionError', 'IndexError') and ringgen.has_group_or_duplicates(t):
+            ctx.violate('rule-group-duplicates', 'a rule with a reactant group or a duplicated reactant cannot be read (%s)' % k,
+                        {'op': 'read', 'text': t}, 'query or RING error', r)
         elif k == 'RecursionError':
             ctx.violate('recursion-long-chain' if t.startswith('fragment a{C labeled c0 C labeled c1 single') else 'recursion:' + t[:40], 'reading escaped with RecursionError', {'op': 'read', 'text': t[:200] + '...', 'len': len(t)},
                         'query or RING error', r)
@@ -101,7 +102,7 @@ def run(ctx):
         for i in idx:
             gi = k * step + i
             r = rr[gi]
-            if r.get('exc') in ('Timeout', 'RecursionError') or (r.get('exc') == 'AssertionError' and 'rule' in texts[gi][:40]):
+            if r.get('exc') in ('Timeout', 'RecursionError'):
                 continue        # already reported above as hang / recursion / rule finding
             nbad += 1
             ctx.violate('corr:' + texts[gi][:60], 'model (parser + reader) and implementation disagree on a text',
